@@ -13,6 +13,7 @@ renderer model (`Model/Render*.lean`):
   glyph_body_eq_model          width resolution + the write `switch`       = `glyphTok`
   written_cell_body_eq_model   the WHOLE written-cell path (dirty … switch)  = tokens / pen / flags / dirty / last of the written-cell branch
   unchanged_body_eq_model      `if next == last && !refresh && col >= dirty { … continue }` = the unchanged branch
+  render_frame_body_eq_model   pointer shape / trailing OSC 8 close / cursor show  = `pre` / `close` / `show_` of `renderBodyS`
   render_written_branch_eq_interp, render_sixel_branch_eq_interp, render_unchanged_branch_eq_interp
                                each of the three branches of `renderCellsS` at a non-skipped cell continues with the
                                state the interpreted statements compute
@@ -436,6 +437,47 @@ theorem render_unchanged_branch_eq_interp (cw : String → Nat) (caps : Caps) (r
   simp only [e]
   rw [hd, c2, c3, hm]
   exact VaxisModel.Lemmas.RenderImages.renderCellsS_equal_eq cw caps refresh row col track dirty n0 l ns ls st h hc
+
+
+/-! ### the frame of `render()` around the row loop: pointer shape, trailing hyperlink close, cursor show -/
+
+def shapeBlock : List Line := blockAt G 0 "if" "vx.mouseShapeLast!=vx.mouseShapeNext"
+def closeBlock : List Line := blockAt G 0 "if" "cursor.Hyperlink!=\"\""
+def showBlock : List Line := blockAt G 0 "if" "vx.cursorNext.visible&&!vx.cursorLast.visible"
+
+theorem tail_progs :
+    prog shapeBlock = [(0, .if_, .shapeChanged), (1, .stmt, .wrShape), (1, .stmt, .shapeAssign)] ∧
+    prog closeBlock = [(0, .if_, .cursorLinked), (1, .stmt, .wrLinkClose)] ∧
+    prog showBlock = [(0, .if_, .cursorAppears), (1, .stmt, .wrShowCursor)] := by
+  decide +kernel
+
+/-- **render_frame_body_eq_model**: the statements of `render()` before and after the row loop — OSC 22
+    when the pointer shape changed, OSC 8 close when the tracked pen still has a hyperlink open,
+    `showCursor()` when the cursor becomes visible — write `pre`, `close`, `show_` of `renderBodyS`. -/
+theorem render_frame_body_eq_model (cw : String → Nat) (f : Frame) (pen : Style) (o : List Tok) :
+    (run cw f.caps shapeBlock { shapeNext := f.shapeNext, shapeLast := f.shapeLast, out := o }).out =
+      o ++ (if f.shapeLast ≠ f.shapeNext then [Tok.pointer f.shapeNext] else []) ∧
+    (run cw f.caps closeBlock { cursor := pen, out := o }).out = o ++ (if pen.link ≠ "" then [Tok.osc8 "" ""] else []) ∧
+    (run cw f.caps showBlock { cn := f.cursorNext, cl := f.cursorLast, out := o }).out =
+      o ++ (if f.cursorNext.visible ∧ ¬ f.cursorLast.visible then showCursorToks f.cursorNext else []) ∧
+    (run cw f.caps shapeBlock { shapeNext := f.shapeNext, shapeLast := f.shapeLast, out := o }).unknown = false ∧
+    (run cw f.caps closeBlock { cursor := pen, out := o }).unknown = false ∧
+    (run cw f.caps showBlock { cn := f.cursorNext, cl := f.cursorLast, out := o }).unknown = false := by
+  obtain ⟨p1, p2, p3⟩ := tail_progs
+  have l1 : shapeBlock.length = 3 := by decide +kernel
+  have l2 : closeBlock.length = 2 := by decide +kernel
+  have l3 : showBlock.length = 2 := by decide +kernel
+  unfold run
+  rw [p1, p2, p3, l1, l2, l3]
+  refine ⟨?_, ?_, ?_, ?_, ?_, ?_⟩
+  · by_cases h : f.shapeLast = f.shapeNext <;> simp [exec, evalG, evalS, List.dropWhile, List.takeWhile, h]
+  · by_cases h : pen.link = "" <;> simp [exec, evalG, evalS, List.dropWhile, List.takeWhile, h]
+  · cases h1 : f.cursorNext.visible <;> cases h2 : f.cursorLast.visible <;>
+      simp [exec, evalG, evalS, List.dropWhile, List.takeWhile, h1, h2]
+  · by_cases h : f.shapeLast = f.shapeNext <;> simp [exec, evalG, evalS, List.dropWhile, List.takeWhile, h]
+  · by_cases h : pen.link = "" <;> simp [exec, evalG, evalS, List.dropWhile, List.takeWhile, h]
+  · cases h1 : f.cursorNext.visible <;> cases h2 : f.cursorLast.visible <;>
+      simp [exec, evalG, evalS, List.dropWhile, List.takeWhile, h1, h2]
 
 
 end VaxisModel.Props.C01Body
